@@ -143,11 +143,14 @@ pub fn share_class(snaps: &[Snap; NSLOTS], t: usize) -> Share {
 }
 
 fn len_class(l: usize) -> u64 {
-    match l {
-        0 => 0,
-        1..=15 => 1,
-        16 => 2,
-        _ => 3,
+    if l == 0 {
+        0
+    } else if l < INLINE_CAP {
+        1
+    } else if l == INLINE_CAP {
+        2
+    } else {
+        3
     }
 }
 
@@ -840,7 +843,7 @@ impl Explorer {
                         if groups[ix].2 != s.capacity() {
                             Self::viol(out, 3, "refcount", format!("slot {i}: handles of one buffer report different capacities"));
                         }
-                    } else if k == Kind::Inline && s.capacity() != 16 && std::mem::size_of::<usize>() == 8 {
+                    } else if k == Kind::Inline && s.capacity() != INLINE_CAP {
                         Self::viol(out, 11, "capacity>=len", format!("slot {i}: inline capacity {}", s.capacity()));
                     }
                 }
@@ -1002,7 +1005,7 @@ impl Explorer {
                         | Op::FromChar { .. }
                         | Op::ToLean { v: Tls::Int(..) | Tls::Bool(_) | Tls::Char(_), .. }
                 );
-            if small_routes && m_after_len <= 16 {
+            if small_routes && m_after_len <= INLINE_CAP {
                 self.cov.mon("construct-inline", true);
                 if c.total() != 0 || a.kind != Kind::Inline {
                     Self::viol(
@@ -1013,9 +1016,9 @@ impl Explorer {
                     );
                 }
                 let lastb = pool.model[t].as_ref().and_then(|m| m.as_bytes().last().copied()).unwrap_or(0);
-                let sig = mix(tag_hash(op.tag()), mix(m_after_len as u64, if m_after_len == 16 { lastb as u64 } else { 0 }));
+                let sig = mix(tag_hash(op.tag()), mix(m_after_len as u64, if m_after_len == INLINE_CAP { lastb as u64 } else { 0 }));
                 self.cov.hit(9, sig, || format!("{} -> inline len {}", op.show(), m_after_len));
-            } else if text_routes && m_after_len > 16 && faults == 0 {
+            } else if text_routes && m_after_len > INLINE_CAP && faults == 0 {
                 self.cov.mon("construct-one-alloc", true);
                 if c.alloc != 1 || c.realloc != 0 || c.dealloc != 0 || a.cap != a.len || a.kind != Kind::Heap {
                     Self::viol(
@@ -1038,8 +1041,8 @@ impl Explorer {
                 if a.cap < *n {
                     Self::viol(out, 11, "with-capacity-post", format!("with_capacity({n}) ok but capacity is {}", a.cap));
                 }
-                self.cov.hit(11, mix(1150, mix((*n <= 16) as u64, len_class(*n))), || format!("with_capacity({n}) -> cap {}", a.cap));
-                if *n > (1 << 40) {
+                self.cov.hit(11, mix(1150, mix((*n <= INLINE_CAP) as u64, len_class(*n))), || format!("with_capacity({n}) -> cap {}", a.cap));
+                if (*n as u64) > (1u64 << 40) {
                     self.cov.hit(6, mix(1151, *n as u64), || format!("with_capacity({n}) reported Ok"));
                 }
             }
@@ -1049,7 +1052,7 @@ impl Explorer {
                 if c.total() != 0 {
                     Self::viol(out, 10, "static-borrow", format!("from_static_str issued {} allocator requests", c.total()));
                 }
-                if txt.len() > 16 {
+                if txt.len() > INLINE_CAP {
                     if a.ptr != txt.as_ptr() as usize || a.kind != Kind::Static {
                         Self::viol(out, 10, "static-borrow", "from_static_str result does not point at the caller's bytes".into());
                     }
@@ -1073,7 +1076,7 @@ impl Explorer {
         // C09: inline edits stay inline without touching the heap
         if before.kind == Kind::Inline
             && ok
-            && m_after_len <= 16
+            && m_after_len <= INLINE_CAP
             && matches!(
                 op,
                 Op::Push { .. }
@@ -1145,7 +1148,7 @@ impl Explorer {
             }
             let sig = mix(1100, mix(before.kind as u64, mix(share as u64, mix((*n == 0) as u64, (a.ptr != before.ptr) as u64))));
             self.cov.hit(11, sig, || format!("reserve({n}) on {:?}/{:?} len {} cap {} -> cap {}", before.kind, share, l_before, before.cap, a.cap));
-            if *n > (1 << 40) {
+            if (*n as u64) > (1u64 << 40) {
                 self.cov.hit(6, sig, || format!("reserve({n}) reported Ok"));
             }
         }
@@ -1214,7 +1217,7 @@ impl Explorer {
         if let (Some(m), true) = (shrink_m, ok) {
             self.cov.mon("shrink", true);
             let len = l_before;
-            if a.cap > before.cap.max(16) {
+            if a.cap > before.cap.max(INLINE_CAP) {
                 Self::viol(out, 13, "shrink", format!("shrink_to({m}): capacity grew from {} to {} (len {}, {:?})", before.cap, a.cap, len, share));
             }
             if a.cap < len {
@@ -1225,7 +1228,7 @@ impl Explorer {
             }
             let target = len.max(m);
             if before.kind == Kind::Heap && before.cap > target {
-                if target > 16 {
+                if target > INLINE_CAP {
                     if a.cap != target || a.kind != Kind::Heap {
                         Self::viol(
                             out,
@@ -1240,7 +1243,7 @@ impl Explorer {
             }
             let ratio = if before.cap > 2 * len.max(1) { 2 } else if before.cap > len { 1 } else { 0 };
             let mrel = if m < len { 0 } else if m == len { 1 } else if m < before.cap { 2 } else if m == before.cap { 3 } else { 4 };
-            let sig = mix(1400 + before.kind as u64, mix(share as u64, mix(ratio, mix(mrel, (target <= 16) as u64))));
+            let sig = mix(1400 + before.kind as u64, mix(share as u64, mix(ratio, mix(mrel, (target <= INLINE_CAP) as u64))));
             self.cov.hit(13, sig, || format!("shrink_to({m}) on {:?}/{:?} len {} cap {} -> cap {} {:?}", before.kind, share, len, before.cap, a.cap, a.kind));
         }
         if let (Op::WithCap { .. }, _) = (op, ok) {}
@@ -1285,7 +1288,7 @@ impl Explorer {
 /// needed capacity exceeds what any allocation can provide (2^56-1 on 64-bit) or overflows
 pub fn size_exceeds_max(op: &Op, model_before: Option<&str>) -> bool {
     let len = model_before.map(|m| m.len()).unwrap_or(0);
-    let max = if std::mem::size_of::<usize>() == 8 { MAX_CAP } else { usize::MAX - 64 };
+    let max = MAX_CAP;
     match op {
         Op::Reserve { n, .. } => len.checked_add(*n).map(|x| x > max).unwrap_or(true),
         Op::WithCap { n, .. } => *n > max,
